@@ -1,7 +1,7 @@
 (* C02 - Every successful transfer conserves value across the whole ledger. *)
 From Coq Require Import String List ZArith Bool.
 From Orbiter Require Import Lib.Res Gen.Constants Model.Env Model.Fee Model.Payload Model.State Model.Pipeline
-     Proofs.Ledger Proofs.PipelineProofs Proofs.TransferProps Proofs.GasProofs Props.Examples Props.OpenFindings.
+     Proofs.Ledger Proofs.PipelineProofs Proofs.TransferProps Proofs.GasProofs Proofs.GasCharged Props.Examples Props.OpenFindings.
 Import ListNotations.
 Open Scope string_scope.
 Open Scope Z_scope.
@@ -45,6 +45,27 @@ Theorem C02_open_gas_hook :
     bal (w_l (rr_world (recv_gas g cfg e w p [] 0))) (cfg_orbiter cfg) "ufoo" = bal (w_l w) (cfg_orbiter cfg) "ufoo" - 9.
 Proof. exact open_C02_gas_hook. Qed.
 Print Assumptions C02_open_gas_hook.
+
+(* ... and this is ALL that a charging hook changes: on any chain (any gas function g) the movements of a
+   successful transfer are those of C02_moves followed by at most one more, the gas payment out of the orbiter
+   account to the hook's account, in the hook's denomination, positive and within the max fee when that is in
+   the same denomination ([gas_ok]); the new ledger is the old one with exactly these movements applied *)
+Theorem C02_moves_any_hooks : forall g cfg e w p tape,
+  wf_cfg cfg ->
+  rr_out (recv_gas g cfg e w p tape 0) = OAckOk ->
+  exists d A fees sink extra,
+    let orb := cfg_orbiter cfg in
+    let prior := bal (w_l w) orb d in
+    let out := A - moves_total fees in
+    rr_moves (recv_gas g cfg e w p tape 0) =
+      (sweep_moves cfg d prior ++ [MSend (cfg_escrow cfg (pk_dport p) (pk_dchan p)) orb d A] ++ fees ++ [sink]) ++ extra /\
+    w_l (rr_world (recv_gas g cfg e w p tape 0)) = apply_moves (w_l w) (rr_moves (recv_gas g cfg e w p tape 0)) /\
+    Forall (fee_move_ok cfg d) fees /\
+    route_sink cfg e d out sink /\
+    0 < out /\ 0 < A /\
+    (extra = [] \/ exists m, extra = [m] /\ gas_payment cfg g m).
+Proof. exact success_moves_hooks. Qed.
+Print Assumptions C02_moves_any_hooks.
 
 (* no account that is not a party of one of these movements changes, in any denomination *)
 Theorem C02_untouched : forall cfg e w p tape x d,
